@@ -129,6 +129,61 @@ func runC07(c *fw.Ctx) {
 	for i := 0; i < c.Pick(1500, 20000); i++ {
 		c.Case(func(k *fw.K) { c07TwoGraphs(k) })
 	}
+	// ---- an explicit Broadcast result that feeds two (or three) operations of the same graph ----
+	for i := 0; i < c.Pick(1500, 20000); i++ {
+		c.Case(func(k *fw.K) {
+			dst := RandShape(k.Rng, 1, 3, 3)
+			srcs := BroadcastSources(dst)
+			sx := srcs[k.Rng.Intn(len(srcs))]
+			x := Shuffled(k.Rng, Unique(k.Rng, sx, 0.2, 2.5))
+			p := ref.Prog{{Op: "leaf", Shape: sx, Data: x.Data, Tracked: true}, {Op: "broadcast", In: []int{0}, Shape: dst}}
+			uses := 2 + k.Rng.Intn(2)
+			var parts []int
+			for u := 0; u < uses; u++ {
+				switch k.Rng.Intn(4) {
+				case 0:
+					p = append(p, ref.Instr{Op: "sin", In: []int{1}})
+				case 1:
+					p = append(p, ref.Instr{Op: "scale", In: []int{1}, F: 0.5 + float64(u)})
+				case 2:
+					o := Shuffled(k.Rng, Unique(k.Rng, dst, 0.2, 2.5))
+					p = append(p, ref.Instr{Op: "leaf", Shape: dst, Data: o.Data}, ref.Instr{Op: "mul", In: []int{1, len(p)}})
+				default:
+					p = append(p, ref.Instr{Op: "tanh", In: []int{1}})
+				}
+				parts = append(parts, len(p)-1)
+			}
+			acc := parts[0]
+			for _, q := range parts[1:] {
+				p = append(p, ref.Instr{Op: "add", In: []int{acc, q}})
+				acc = len(p) - 1
+			}
+			g := randG(k, dst)
+			p = append(p, ref.Instr{Op: "leaf", Shape: dst, Data: g.Data}, ref.Instr{Op: "mul", In: []int{acc, len(p)}})
+			root := len(p) - 1
+			k.Case = c01case{Family: "explicit Broadcast result with several consumers", Prog: p, Roots: []int{root}}
+			if ref.Prod(dst) > ref.Prod(sx) {
+				k.Key("broadcast-fanout/%s/%s/%d", shapeKey(sx), shapeKey(dst), uses)
+			}
+			k.Count("broadcast_fanout_cases", 1)
+			vals, err := p.Eval()
+			if err != nil {
+				k.Failf("harness: %v", err)
+				return
+			}
+			var ts []tensor.Tensor
+			if pn := call(func() {
+				ts, err = rt.Run(p)
+				if err == nil {
+					err = tensor.BackPropagate(ts[root])
+				}
+			}); pn != nil || err != nil {
+				k.Failf("explicit Broadcast with %d consumers: panic=%v err=%v", uses, pn, err)
+				return
+			}
+			checkGradsClassified(k, ts, p, vals, root, nil, fmt.Sprintf("explicit Broadcast %v -> %v with %d consumers", sx, dst, uses))
+		})
+	}
 	// ---- sampled pairs with sizes up to 7 ----
 	for i := 0; i < c.Pick(2000, 20000); i++ {
 		c.Case(func(k *fw.K) {
